@@ -329,7 +329,7 @@ Qed.
 
 Definition html_text_value (value : node) : node :=
   match value with
-  | Str _ _ => value
+  | Str v _ => mk_str v
   | JExprC JEmpty => Bool true
   | JExprC (Arr (Elem false x :: _)) => x
   | JExprC e => e
@@ -360,7 +360,7 @@ Proof.
   unfold step_directive. rewrite parse_directive_unfold. rewrite (name_parts_spec _ _ HN).
   cbn [attr_spec]. rewrite HN.
   assert (FV : match (match value with
-                      | Str _ _ => Some value
+                      | Str v _ => Some (mk_str v)
                       | JExprC JEmpty => None
                       | JExprC (Arr (Elem false x :: _)) => Some x
                       | JExprC e => Some e
